@@ -1,5 +1,6 @@
 import Texel.Properties.C02
 import Texel.Proofs.Output
+import Texel.Properties.C14
 import Mathlib.Tactic.Ring
 import Mathlib.Tactic.Linarith
 /-! # C03 — output coordinates are vector-tile pixel centres
@@ -102,6 +103,35 @@ theorem C03_output_is_pixel_of_level (g : Grid) (hres : 0 < g.res) (rings : List
     (l : Nat) (polys : Array Poly) (hm : (l, polys) ∈ res) (pg : Poly) (hpg : pg ∈ polys) (r : Array P) (hr : r ∈ pg) (v : P) (hv : v ∈ r) :
     ∃ q : Quad, v = q.toP ∧ q.x < 2 ^ l ∧ q.y < 2 ^ l :=
   snapPolygonF_vertex_in_range g hres rings levels cfg res h hlev l polys hm pg hpg r hr v hv
+
+/-- **the pixel size of tile matrix `i` is its cell size divided by 16**: in a tile matrix set that validation accepts, the level used for
+tile matrix `i` is `i + log₂ tileWidth + 4`; on a round extent of `matrixWidth · tileWidth` cells of size `cell`, sixteen pixels of that
+level make one cell. (Before the fix for F15 validation also accepted sets whose first matrix has more than one tile, or tiles that are not a
+power of two wide, and this was false for them.) -/
+theorem C03_pixel_is_sixteenth_of_cell (g : Grid) (XSpan : Int) (hX : XSpan = 2 ^ g.depth * g.res)
+    (tms : List QT.TM) (hacc : QT.isQuadTree tms = none) (i : Nat) (hi : i < tms.length)
+    (l : Nat) (hl : l = i + (tms[0]'(by omega)).tw.log2 + 4) (hld : l ≤ g.depth)
+    (cell : Int) (hcell : XSpan = ((tms[i].mw * tms[i].tw : Nat) : Int) * cell) :
+    16 * g.span l = cell := by
+  obtain ⟨_, hmw, htw, hcount⟩ := Texel.C14.C14_pixel_count tms hacc i hi
+  have hsize := C03_pixel_size g XSpan hX l hld
+  have hpos : (0 : Int) < ((tms[i].mw * tms[i].tw : Nat) : Int) := by
+    have : 0 < tms[i].mw * tms[i].tw * 16 := by rw [hcount]; positivity
+    have : 0 < tms[i].mw * tms[i].tw := by omega
+    exact_mod_cast this
+  have h2 : ((2 : Int) ^ l) = ((tms[i].mw * tms[i].tw : Nat) : Int) * 16 := by
+    rw [hl]
+    have := congrArg (fun n : Nat => (n : Int)) hcount
+    simp only [Nat.cast_mul, Nat.cast_pow, Nat.cast_ofNat] at this
+    push_cast
+    linarith
+  rw [h2, hcell] at hsize
+  have : ((tms[i].mw * tms[i].tw : Nat) : Int) * (16 * g.span l) = ((tms[i].mw * tms[i].tw : Nat) : Int) * cell := by linarith
+  exact mul_left_cancel₀ (ne_of_gt hpos) this
+
+-- non-vacuity of `C03_pixel_is_sixteenth_of_cell`: the two-matrix set of C14 is accepted; on a grid of depth 13 with unit resolution
+-- (XSpan = 2^13 = 1 · 256 · 32) level 0 + 8 + 4 has pixels of 2 units = 32 / 16
+example : QT.isQuadTree [Texel.C14.tm0, Texel.C14.tm1] = none ∧ (2 : Int) ^ 13 = ((1 * 256 : Nat) : Int) * 32 ∧ 16 * (Grid.span ⟨0, 0, 1, 13⟩ 12) = 32 := by decide
 
 -- non-vacuity: RD-like round grid (res 4, depth 4): centre of pixel (5,3) on level 3 is 8·5+4 = 44
 example : (Grid.centroid ⟨0, 0, 4, 4⟩ 3 ⟨5, 3⟩) = ⟨44, 28⟩ := by decide
